@@ -9,7 +9,7 @@ RULE = ("programs from the grammar-directed generator (fv/gen.py), one per deriv
 ASSUMPTIONS = ["leaf rule classes are an oracle parameter of the block-level theorems; their own match/tostr pairs are "
                "exercised here, not proved",
                "generator valid class = what fv/gen.py emits (validated against the pinned tree)"]
-TIE_MODULES = ["FparserModel.Block", "FparserModel.Reader", "FparserModel.Expr", "FparserModel.Combi", "FparserModel.Generated.Combi"]
+TIE_MODULES = ["FparserModel.Block", "FparserModel.Reader", "FparserModel.Expr", "FparserModel.Combi", "FparserModel.Generated.Combi", "FparserModel.Print", "FparserModel.Generated.PrintTables", "FparserModel.Props.Print"]
 
 
 def _render(p, case):
@@ -89,5 +89,6 @@ def cases(tier, seed):
 
 
 def run(tier, rep, st):
+    util.sub_cosim(rep, tier, "cosim_print", "Fp.Print", 100, 1000)
     util.sub_cosim(rep, tier, "cosim_combi", "Fp.Combi", 40, 300, extra=["--max-seconds", "45" if tier != "thorough" else "600", "--classes-per-base", "6" if tier != "thorough" else "1000"])
     engine.run_cases(__name__, cases(tier, rep.seed), rep)
